@@ -172,6 +172,53 @@ def run_threads(m, rec, n_clients, n_reqs, rng, base_id):
     return rec.take(), errors
 
 
+def run_slow(m, rec, rng, base_id, per_exchange=1.25, others=3):
+    """One request whose device exchanges take longer in total (9 x 1.25 s) than any plausible per-request
+    time limit, each exchange well inside the 10 s dongle timeout, while other clients queue up behind it."""
+    slow_req, slow_st = make_request(base_id + 1, "blockchainState", rng)
+    allr = {base_id + 1: ("blockchainState", slow_st)}
+    state = {"slow": True}
+    m.device.exchange_delay = lambda: time.sleep(per_exchange if state["slow"] else 0.0005)
+    results = {}
+
+    def slow_client():
+        s = socket.create_connection(m.addr, timeout=10)
+        s.sendall(json.dumps(slow_req).encode() + b"\n")
+        reply = read_reply(s, 60)
+        rec.emit({"k": "got", "r": base_id + 1, "t": 0,
+                  "m": reply_owner(base_id + 1, "blockchainState", slow_st, reply, m.device, allr)})
+
+    def quick_client(i):
+        rid = base_id + 10 + i
+        req, st = make_request(rid, rng.choice(["sign_hash", "signerHeartbeat", "getPubKey"]), rng)
+        kind = req["command"] if req["command"] != "sign" else "sign_hash"
+        allr[rid] = (kind, st)
+        try:
+            s = socket.create_connection(m.addr, timeout=10)
+            s.sendall(json.dumps(req).encode() + b"\n")
+            reply = read_reply(s, 60)
+        except OSError:
+            reply = None
+        rec.emit({"k": "got", "r": rid, "t": 0, "m": reply_owner(rid, kind, st, reply, m.device, allr)})
+    ts = threading.Thread(target=slow_client)
+    ts.start()
+    time.sleep(0.4)
+    # the device is slow only for the first request: later exchanges are quick again once it is done
+    qs = [threading.Thread(target=quick_client, args=(i,)) for i in range(others)]
+    for q in qs:
+        q.start()
+
+    def unslow():
+        # exchanges issued on behalf of later requests are fast; the slow request keeps its pace
+        pass
+    ts.join(90)
+    state["slow"] = False
+    for q in qs:
+        q.join(90)
+    m.device.exchange_delay = None
+    return rec.take()
+
+
 def run(ctx):
     res = core.Result()
     res.assumptions = [
@@ -196,6 +243,18 @@ def run(ctx):
     m = LiveManager(2)
     rec = Recorder(m)
     traces, info = [], {}
+    # a second manager serves the slow-request scenario in the background while the others run
+    m_slow = LiveManager(2)
+    rec_slow = Recorder(m_slow)
+    slow_out = {}
+
+    def slow_job():
+        try:
+            slow_out["ev"] = run_slow(m_slow, rec_slow, random.Random("slow:%d" % ctx.seed), 900000)
+        except Exception as e:   # noqa
+            slow_out["err"] = repr(e)
+    slow_thread = threading.Thread(target=slow_job)
+    slow_thread.start()
     try:
         base = 1000
         for si, sj in enumerate(uniq):
@@ -221,8 +280,17 @@ def run(ctx):
             traces.append({"id": tid, "ev": ev})
             info[tid] = {"threads": nc, "requests_each": nr}
         res.coverage["threaded_runs"] = n_runs
+        slow_thread.join(200)
+        if "ev" not in slow_out:
+            raise core.MachineryError("slow-request scenario failed: %s" % slow_out.get("err", "timeout"))
+        tid = len(traces) + 1
+        traces.append({"id": tid, "ev": slow_out["ev"]})
+        info[tid] = {"scenario": "one request of 9 exchanges x 1.25 s with 3 clients queued behind it"}
+        res.coverage["slow_request_scenarios"] = 1
     finally:
         m.stop()
+        slow_thread.join(200)
+        m_slow.stop()
     verdicts, stats = tlc.validate("TraceConc", "Trace_Conc.cfg", traces, shards=12)
     res.checker_cmds.append("tlc -workers 1 -config Trace_Conc.cfg TraceConc (x%d shards)" % stats["jvms"])
     accepted = 0
